@@ -504,7 +504,8 @@ class C16(Prop):
         if n <= 40 and rng.random() < 0.2: ops.append("diffmx")
         if rng.random() < 0.25 and not big:
             ops.append("multi seq=%s maxid=%s" % ("".join(rng.choice("pgb") for _ in range(rng.randrange(2, 5))), dbits(th[1])))
-        ops.append("slink maxid=" + dbits(th[0]) + rng.choice(["", "", "", " pre=1", " pre=1", " pre=2", " pre=3"]))
+        ops.append("slink maxid=" + dbits(th[0]) + rng.choice(["", "", " pre=1", " pre=2", " pre=3"] +
+                   [" modes=%d%d%d" % (rng.randrange(3), rng.randrange(3), rng.randrange(2)) for _ in range(5)]))   # every combination of the optional outputs
         ops.append("blosum maxid=" + dbits(th[rng.randrange(2)]))
         if n > 255:      # everything linked: the stacks of the clustering routine hold more than 255 vertices at once
             ops += ["slink maxid=" + dbits(0.0), "blosum maxid=" + dbits(0.0), "idfilter maxid=" + dbits(0.0)]
@@ -641,6 +642,69 @@ class C16(Prop):
             ops += [o for o in comp if o.split()[0] in ("pb", "pbadv", "blosum", "gsc", "slink")]
         return {"name": name, "ops": ops, "sticky": 1}
 
+    def boundary_case(self, rng, name):
+        """round 6, the boundaries the quantifier names, each by construction rather than by chance:
+          * fragments whose span (first..last residue, inner gaps allowed) is exactly minspan-1 / minspan / minspan+1 for
+            minspan = (int) ceil(fragthresh * (float) alen), fragthresh in {0.5 default, 0.3, 0.75, 1.0} evaluated in binary32, no RF
+            (or RF ignored), full-length rows beside them so that the fragment rule changes the column counts;
+          * sampthresh = nseq-2 .. nseq+1 with allow_samp on/off, nsamp around nseq, maxfrag around the number of fragments;
+          * N = 1, 2;  * all-gap columns;  * alignments over two residues in 1..4 columns: every UPGMA pass ties."""
+        import math
+        kind = rng.choice(["frag", "frag", "samp", "ties", "ties"])
+        mode = rng.choice(["amino", "dna", "amino", "text"]) if kind == "ties" else rng.choice(["amino", "dna", "rna"])
+        res, gaps, odd = self._symbols(rng, mode)
+        self._tally("boundary_kind", kind)
+        if kind == "ties":
+            n = rng.choice([2, 3, 3, 4, 5, 6, 8, 12]); alen = rng.choice([1, 2, 2, 3, 4])
+            two = res[:2]
+            rows = [[rng.choice(two) if rng.random() < 0.85 else rng.choice(gaps) for _ in range(alen)] for _ in range(n)]
+            rf = None
+        else:
+            alen = rng.choice([1, 2, 3, 4, 5, 9, 10, 11, 16, 17, 33, rng.randrange(2, 41)])
+            ft = rng.choice([0.5, 0.5, 0.5, 0.3, 0.75, 1.0])
+            ms = int(math.ceil(f32(f32(ft) * f32(float(alen)))))
+            nfull = rng.choice([0, 1, 2, 3]) if kind == "frag" else rng.randrange(1, 5)
+            rows = [[rng.choice(res) for _ in range(alen)] for _ in range(nfull)]
+            for _ in range(rng.choice([1, 1, 2, 3, 5])):
+                span = max(1, min(alen, ms + rng.choice([-1, -1, 0, 0, 1])))
+                a = rng.randrange(0, alen - span + 1)
+                base = rng.choice(rows) if rows and rng.random() < 0.6 else [rng.choice(res) for _ in range(alen)]
+                g = rng.choice(gaps)
+                r = [g] * alen
+                for i in range(a, a + span):
+                    r[i] = base[i] if (i in (a, a + span - 1) or rng.random() < 0.8) else rng.choice(gaps)   # inner gaps do not shorten the span
+                rows.insert(rng.randrange(len(rows) + 1), r)
+            if rng.random() < 0.3 and alen > 2:                     # all-gap column strictly inside
+                col = rng.randrange(1, alen - 1)
+                for r in rows: r[col] = rng.choice(gaps)
+            if rng.random() < 0.25: rows = rows[:rng.choice([1, 2])]     # N = 1, 2
+            n = len(rows)
+            rf = [rng.choice([ord("x"), 46]) for _ in range(alen)] if rng.random() < 0.25 else None
+        aln = Aln(mode); aln.rows = rows; aln.rf = rf
+        ops = ["abc t=" + mode] + self.aln_ops(mode, rows, rf)
+        th = self.thresholds(rng, aln, 3)
+        comp = ["pb", "gsc", "blosum maxid=" + dbits(th[0]), "slink maxid=" + dbits(th[0]), "idfilter maxid=" + dbits(th[1])]
+        if mode != "text":
+            if kind == "ties":
+                comp.append("pbadv " + self.cfg_args(rng, n))
+            else:
+                nfr = sum(1 for r in rows if (lambda ix: (ix[-1] - ix[0] + 1 < ms) if ix else True)([i for i, c in enumerate(r) if aln.is_res(c)]))
+                for _ in range(3):
+                    a = "irf=%d ft=%s sf=%s" % (1 if rf is not None and rng.random() < 0.7 else 0, f32bits(ft), f32bits(rng.choice([0.5, 0.5, 0.0, 1.0, 0.3])))
+                    if kind == "samp" or rng.random() < 0.4:
+                        st = n + rng.choice([-2, -1, -1, 0, 0, 1])
+                        a += " as=%d st=%d ns=%d mf=%d seed=%d" % (rng.choice([1, 1, 1, 0]), st, max(1, n + rng.choice([-1, 0, 1, 5])),
+                                                                   max(0, nfr + rng.choice([-1, 0, 0, 1])), rng.choice([42, 1, 7, rng.randrange(1, 1 << 62)]))
+                    comp.append("pbadv " + a)
+                    comp.append("idfilteradv maxid=%s pref=%d %s%s" % (dbits(th[2]), rng.choice([1, 1, 2, 3]), a, "" if "seed=" in a else " seed=42"))
+        ops += comp
+        if n >= 2 and rng.random() < 0.7:
+            perm = list(range(n)); rng.shuffle(perm)
+            ops.append("clear")
+            ops += self.aln_ops(mode, [rows[q] for q in perm], rf)
+            ops += [o for o in comp if o.split()[0] in ("pb", "pbadv", "blosum", "gsc", "slink")]
+        return {"name": name, "ops": ops, "sticky": 1}
+
     def graph_case(self, rng, name):
         n = rng.choice([1, 2, 3, 4, 5, 6, 8, 12, 20, rng.randrange(1, 60)])
         p = rng.choice([0.0, 0.05, 0.1, 0.3, 0.7, 1.0, 1.5 / max(n, 1)])
@@ -768,6 +832,8 @@ class C16(Prop):
                                                   [0, 1, 2, 3, 0, 1, 2, 3, 0, 1], [4, 4, 4, 4, 4, 4, 4, 4, 4, 4], [17, 17, 0, 1, 16, 16, 4, 4, 4, 4]], samp))
         c.append({"name": "deal64", "sticky": 1, "ops": ["abc t=text"] + ["deal64 m=%d n=%d seed=%d" % t for t in
                   [(1, 1, 42), (1, 10, 42), (5, 52, 42), (3, 300, 42), (10, 10, 1), (20, 100000, 7), (200, 2000, 9), (7, 91, 3), (7, 92, 3)]]})
+        c.append(mk("slink-optional-outputs", "text", ["ACDEFGHIKL", "ACDEFGHIKV", "WWWWWWWWWW", "ACDEFGHIKL", "WWWWWYYYYY", "----------"],
+                    ["slink maxid=%s modes=%d%d%d" % (dbits(t), a_, b_, c_) for t in (0.5, 0.0) for a_ in range(3) for b_ in range(3) for c_ in range(2)]))
         mx = lambda vals: ",".join(dbits(v) for v in vals)
         c.append({"name": "treeops", "sticky": 1, "ops": ["abc t=text",
                   "treeops n=2 link=0 link2=0 d=" + mx([0.5]),
@@ -814,6 +880,8 @@ class C16(Prop):
             out.append(self.pairstr_case(rng, "pairstr%d" % c))
         for c in range(200 if quick else 1500):
             out.append(self.tree_case(rng, "tree%d" % c))
+        for c in range(150 if quick else 1200):
+            out.append(self.boundary_case(rng, "boundary%d" % c))
         # spread the expensive cases evenly, so that no batch of the engine (400 cases, one 300 s timeout per batch and side)
         # carries all of them: a loaded machine must not turn a slow batch into a "hang"
         heavy = [c for c in out if c["name"].startswith(("big", "tall", "wide", "max"))]
@@ -1044,8 +1112,10 @@ class C16(Prop):
                 cnt("qsort"); continue
             if w[0] == "slink":
                 maxid = undbits(kv["maxid"])
-                nc = int(f["nc"])
                 comp = components(n, lambda i, j: aln.pidx(i, j) >= maxid)
+                if "wrote-past-nc" in l: return Failure("monitor", "esl_msacluster_SingleLinkage wrote more than nc entries into the caller's nin[]")
+                nc = int(f["nc"]) if f["nc"] != "-" else len(set(comp))      # opt_nc == NULL: the other outputs are still judged
+                if f["nin"] == "?": f["nin"] = "-"
                 if nc != len(set(comp)): return Failure("monitor", "single linkage at %r: %d clusters reported, the link graph has %d components" % (maxid, nc, len(set(comp))))
                 if f["c"] != "-":
                     c = [int(x) for x in f["c"].split(",")]
